@@ -674,13 +674,17 @@ def _search_wildcard(elem, session, query=None):
     if value is None or value == "":
         value = "*"
 
+    # '%' and '_' are wild cards for SQL's LIKE but ordinary characters in DICOM
+    for char in ("\\", "%", "_"):
+        value = value.replace(char, "\\" + char)
+
     value = value.replace("*", "%")
     value = value.replace("?", "_")
 
     if not query:
         query = session.query(Instance)
 
-    return query.filter(attr.like(value))
+    return query.filter(attr.like(value, escape="\\"))
 
 
 # Database table setup stuff
